@@ -1,5 +1,9 @@
 // Engine A core: plan text, reference helpers, data sources, invariants, settle logic, pool.
 #include "core.h"
+#include <thread>
+#include <mutex>
+#include <condition_variable>
+#include <pthread.h>
 #include <algorithm>
 #include <cstdlib>
 
@@ -28,7 +32,7 @@ static const char *const PROBE_NAMES[PR__COUNT] = {
     "throw_with_heap_target", "throw_with_heap_rvalue_argument", "object_reused_after_throw",
     "fault_in_allocate_after_release", "fault_in_vector_growth", "fault_while_constructing_exception",
     "target_empty_after_fault", "target_old_value_after_fault", "fault_in_stream_growth", "fault_in_std_function", "stream_topped_up_before_append",
-    "storage_retained_by_static_or_thread_local_object_after_teardown",
+    "storage_retained_by_static_or_thread_local_object_after_teardown", "step_executed_by_a_helper_thread",
 };
 const char *probe_name(int i) { return (i >= 0 && i < PR__COUNT) ? PROBE_NAMES[i] : "?"; }
 const char *exc_name(int e) {
@@ -46,8 +50,8 @@ std::string plan_to_text(const Plan &p) {
                   p.k.fill_fresh, p.k.fill_freed, p.k.text_mix, p.k.strict);
     s += buf;
     for (const Op &o : p.ops) {
-        std::snprintf(buf, sizeof buf, "op %s t=%u a=%u b=%u c=%u d=%u fault=%u fa=%u fc=%u\n", op_name(o.kind), o.t, o.a, o.b, o.c, o.d,
-                      o.fault, o.fa, o.fc);
+        std::snprintf(buf, sizeof buf, "op %s t=%u a=%u b=%u c=%u d=%u fault=%u fa=%u fc=%u thr=%u\n", op_name(o.kind), o.t, o.a, o.b, o.c, o.d,
+                      o.fault, o.fa, o.fc, o.thr);
         s += buf;
     }
     return s;
@@ -97,6 +101,7 @@ bool plan_from_text(const std::string &text, Plan &p, std::string &err) {
             if (kv(l, "fault", v)) o.fault = (uint8_t)v;
             if (kv(l, "fa", v)) o.fa = (uint32_t)v;
             if (kv(l, "fc", v)) o.fc = (uint32_t)v;
+            if (kv(l, "thr", v)) o.thr = (uint8_t)(v % 3);
             p.ops.push_back(o);
         } else { err = "bad line: " + line; return false; }
     }
@@ -683,4 +688,28 @@ bool settle(Ctx &c, const Op &op, ExcKind ex, unsigned allowed) {
     return false;
 }
 
+
+// ------------------------------------------------------------------ helper threads (who executes a step)
+namespace {
+struct Helper { std::thread th; std::mutex m; std::condition_variable cv; const std::function<void()> *job = nullptr; bool done = false; };
+Helper *g_helpers[2] = {nullptr, nullptr};
+void helper_main(Helper *h) {
+    std::unique_lock<std::mutex> lk(h->m);
+    for (;;) {
+        h->cv.wait(lk, [&] { return h->job != nullptr; });
+        (*h->job)(); h->job = nullptr; h->done = true;
+        h->cv.notify_all();
+    }
+}
+void forget_helpers_in_child() { g_helpers[0] = g_helpers[1] = nullptr; }      // fork() clones the calling thread only: a child makes its own helpers
+}
+void on_helper(int k, const std::function<void()> &fn) {
+    static bool atfork = (pthread_atfork(nullptr, nullptr, forget_helpers_in_child), true); (void)atfork;
+    Helper *&h = g_helpers[(k - 1) & 1];
+    if (!h) { h = new Helper(); h->th = std::thread(helper_main, h); h->th.detach(); }
+    std::unique_lock<std::mutex> lk(h->m);
+    h->done = false; h->job = &fn;
+    h->cv.notify_all();
+    h->cv.wait(lk, [&] { return h->done; });
+}
 } // namespace A
